@@ -227,7 +227,7 @@ def check(run, replay):
         progs.append((write(os.path.join(WORK, name), text), name.endswith(".cpp"), True, ["corpus"]))
     for p in corpus_sources(quick):
         progs.append((p, p.endswith(".cpp"), False, ["repo"]))
-    ngen = 60 if quick else 1500
+    ngen = 40 if quick else 1000
     for k in range(ngen):
         cpp = k % 2 == 1
         src, feats = NC.gen_program(rng, cpp)
@@ -257,7 +257,8 @@ def check(run, replay):
                           "the model replayed on setVarIdPass1's own operation trace gives other ids than the code did",
                           dict(d, broken="correspondence trace", program=open(path, encoding="latin-1").read()[:4000]), found_input=False)
             continue
-        small = shrink(model, path, cpp, kind) if path.startswith(WORK) else open(path, encoding="latin-1").read()
+        text0 = open(path, encoding="latin-1").read()
+        small = shrink(model, path, cpp, kind) if path.startswith(WORK) and text0.count("\n") > 4 else text0
         sp = write(os.path.join(WORK, "min_%s.%s" % (kind, "cpp" if cpp else "c")), small)
         st = collections.Counter()
 
